@@ -604,3 +604,130 @@ Theorem C02_denoted_value_call_accepted :
     EncodeCallDataValues bifs sel params input = Ok (sel ++ enc (ty_of root) v).
 Proof. exact ReprWalk.denoted_value_call_encoded. Qed.
 Print Assumptions C02_denoted_value_call_accepted.
+
+(* ================= wave 6: two guards closed ================= *)
+From FFS Require Abi.EncZeroLen Abi.ReprClip Abi.ReprClipC19.
+
+(* 20. Theorem 1 with the guard [tc_no_zero_len] ("no T[0] anywhere") replaced by its exact form
+       [tc_zero_len_static]: every T[0] in the type tree has a STATIC element type.  T[0] with a static
+       T is encoded as the specification says (the empty string, not dynamic); the code's value-driven
+       dynamic flag differs from the specification's only for T[0] with a dynamic T (Example
+       C02_zero_len_nonvacuous shows both).  The old guard implies the new one, so theorem 1 is a
+       corollary. *)
+Theorem C02_encode_is_spec_zero_len_static :
+  forall (tc : tcomp) (x : cval),
+    tc_wf tc = true -> tc_no_fixed_point tc = true -> EncZeroLen.tc_zero_len_static tc = true ->
+    typed_as tc x = true -> values_ok x = true ->
+    well_typed (ty_of tc) (val_of x) = true ->
+    (Z.of_nat (weight (val_of x)) < 2 ^ 248)%Z ->
+    encodeABIData x = Ok (enc (ty_of tc) (val_of x), dynamic (ty_of tc)).
+Proof. intros tc x. exact (EncZeroLen.encode_is_spec_z x tc). Qed.
+Print Assumptions C02_encode_is_spec_zero_len_static.
+
+Theorem C02_no_zero_len_is_zero_len_static :
+  forall tc, tc_no_zero_len tc = true -> EncZeroLen.tc_zero_len_static tc = true.
+Proof. exact EncZeroLen.no_zero_len_static. Qed.
+Print Assumptions C02_no_zero_len_is_zero_len_static.
+
+(* 21. Theorem 14 (every input that denotes a well-typed value is accepted and encoded as enc of it)
+       under the relaxed T[0] guard: for any parser with the stated law, and with property C19's model. *)
+Theorem C02_denoted_value_accepted_zero_len_static :
+  (forall (bifs : bytes -> res Z) (I : ext -> Z -> Prop),
+     (forall x z, I x z -> int_read bifs x z) ->
+   forall (params : list tcomp) (input : ext) (v : val),
+     let root := root_of params in
+     tc_wf root = true -> tc_no_fixed_point root = true -> EncZeroLen.tc_zero_len_static root = true ->
+     repr I root input v -> well_typed (ty_of root) v = true -> (Z.of_nat (weight v) < 2 ^ 248)%Z ->
+     EncodeABIDataValues bifs params input = Ok (enc (ty_of root) v)) /\
+  (* with property C19's model: no parser hypothesis *)
+  (forall (params : list tcomp) (input : ext) (v : val),
+     let root := root_of params in
+     tc_wf root = true -> tc_no_fixed_point root = true -> EncZeroLen.tc_zero_len_static root = true ->
+     repr ReprC19.I19 root input v -> well_typed (ty_of root) v = true -> (Z.of_nat (weight v) < 2 ^ 248)%Z ->
+     EncodeABIDataValues EthTypes.Model.BigIntegerFromString params input = Ok (enc (ty_of root) v)).
+Proof. split; [exact ReprClip.denoted_value_encoded_z|exact ReprClipC19.denoted_value_encoded_z_c19]. Qed.
+Print Assumptions C02_denoted_value_accepted_zero_len_static.
+
+(* 22. Theorem 15 WITHOUT the guard [not_longer] (and with the relaxed T[0] guard).  [ReprClip.clip t v]
+       is a function of the specification type and the value only: it cuts every bytes<M> value of v
+       to its first M bytes and every function value to its first 24 bytes, and changes nothing else.
+       For EVERY accepted input: the value v the input denotes ([repr], unique by theorem 16), cut
+       this way, is well typed (no size guard), and the bytes returned are enc(type, clip v) (size
+       guard on the cut value, which is never heavier than v); and clip v = v whenever no byte
+       string in v is over-long - in particular for every well-typed v (theorem 23).  So the only
+       thing that separates "accepted" from "enc of the well-typed value denoted" is the truncation
+       of over-long bytes<M> / function inputs, and that is now stated exactly instead of excluded. *)
+Theorem C02_accepted_is_clipped_denoted :
+  (forall (bifs : bytes -> res Z) (D : bytes -> Z -> Prop),
+     (forall s z, bifs s = Ok z -> D s z) ->
+   forall (params : list tcomp) (input : ext) (b : bytes),
+     let root := root_of params in
+     tc_wf root = true -> tc_no_fixed_point root = true -> EncZeroLen.tc_zero_len_static root = true ->
+     ext_clean input = true ->
+     EncodeABIDataValues bifs params input = Ok b ->
+     exists v, repr (int_denotes D) root input v /\
+               well_typed (ty_of root) (ReprClip.clip (ty_of root) v) = true /\
+               ((Z.of_nat (weight (ReprClip.clip (ty_of root) v)) < 2 ^ 248)%Z ->
+                  b = enc (ty_of root) (ReprClip.clip (ty_of root) v)) /\
+               (not_longer (ty_of root) v = true -> ReprClip.clip (ty_of root) v = v)) /\
+  (* with property C19's model: no parser hypothesis; integer leaves denote per C19's complete
+     specification of the accepted number texts *)
+  (forall (params : list tcomp) (input : ext) (b : bytes),
+     let root := root_of params in
+     tc_wf root = true -> tc_no_fixed_point root = true -> EncZeroLen.tc_zero_len_static root = true ->
+     ext_clean input = true ->
+     EncodeABIDataValues EthTypes.Model.BigIntegerFromString params input = Ok b ->
+     exists v, repr ReprC19.I19 root input v /\
+               well_typed (ty_of root) (ReprClip.clip (ty_of root) v) = true /\
+               ((Z.of_nat (weight (ReprClip.clip (ty_of root) v)) < 2 ^ 248)%Z ->
+                  b = enc (ty_of root) (ReprClip.clip (ty_of root) v)) /\
+               (not_longer (ty_of root) v = true -> ReprClip.clip (ty_of root) v = v)).
+Proof. split; [exact ReprClip.accepted_is_denoted_clip|exact ReprClipC19.accepted_is_denoted_clip_c19]. Qed.
+Print Assumptions C02_accepted_is_clipped_denoted.
+
+(* 23. the cut is the identity on every well-typed value, and never adds weight *)
+Theorem C02_clip_identity_on_well_typed :
+  (forall t v, well_typed t v = true -> ReprClip.clip t v = v) /\
+  (forall t v, (weight (ReprClip.clip t v) <= weight v)%nat).
+Proof. split; [exact ReprClip.clip_well_typed|intros t v; exact (ReprClip.clip_weight v t)]. Qed.
+Print Assumptions C02_clip_identity_on_well_typed.
+
+(* non-vacuity of 22/23: (bytes2, bool) given ["0xaB01ff", true] - a hand-built derivation that it
+   denotes ([ab,01,ff], 1); that value is not well typed, its cut is ([ab,01], 1), which is, and the
+   model returns enc of the cut value *)
+Example C02_clip_nonvacuous :
+  let root := root_of ReprC19.ex_r_params in
+  repr ReprC19.I19 root ReprClipC19.ex_long_input ReprClipC19.ex_long_val /\
+  tc_wf root = true /\ tc_no_fixed_point root = true /\ EncZeroLen.tc_zero_len_static root = true /\
+  ext_clean ReprClipC19.ex_long_input = true /\
+  well_typed (ty_of root) ReprClipC19.ex_long_val = false /\
+  not_longer (ty_of root) ReprClipC19.ex_long_val = false /\
+  ReprClip.clip (ty_of root) ReprClipC19.ex_long_val = ReprC19.ex_r_val /\
+  well_typed (ty_of root) ReprC19.ex_r_val = true /\
+  EncodeABIDataValues EthTypes.Model.BigIntegerFromString ReprC19.ex_r_params ReprClipC19.ex_long_input
+    = Ok (enc (ty_of root) ReprC19.ex_r_val).
+Proof.
+  cbv zeta. split; [exact (ReprClipC19.ex_long_repr ReprC19.I19)|]. repeat split; vm_compute; reflexivity.
+Qed.
+
+(* non-vacuity of 20/21 and tightness of the relaxed guard: (uint8[0], string) given [[], "x"] is
+   inside the new guard, outside the old one, and encoded as the specification says; for string[0]
+   (dynamic element) the new guard fails, and indeed the model (and the code) return the empty
+   string where the specification's enc is one offset word *)
+Example C02_zero_len_nonvacuous :
+  let root := root_of ReprClipC19.ex_z_params in
+  repr ReprC19.I19 root ReprClipC19.ex_z_input ReprClipC19.ex_z_val /\
+  tc_wf root = true /\ tc_no_fixed_point root = true /\
+  EncZeroLen.tc_zero_len_static root = true /\ tc_no_zero_len root = false /\
+  well_typed (ty_of root) ReprClipC19.ex_z_val = true /\
+  EncodeABIDataValues EthTypes.Model.BigIntegerFromString ReprClipC19.ex_z_params ReprClipC19.ex_z_input
+    = Ok (enc (ty_of root) ReprClipC19.ex_z_val) /\
+  length (enc (ty_of root) ReprClipC19.ex_z_val) = 96%nat /\
+  (let rootd := root_of ReprClipC19.ex_zd_params in
+   tc_wf rootd = true /\ EncZeroLen.tc_zero_len_static rootd = false /\
+   well_typed (ty_of rootd) (VList [VList []]) = true /\
+   EncodeABIDataValues EthTypes.Model.BigIntegerFromString ReprClipC19.ex_zd_params (XList [XList []]) = Ok [] /\
+   length (enc (ty_of rootd) (VList [VList []])) = 32%nat).
+Proof.
+  cbv zeta. split; [exact (ReprClipC19.ex_z_repr ReprC19.I19)|]. repeat split; vm_compute; reflexivity.
+Qed.
